@@ -282,7 +282,8 @@ fn explore(plan: &Plan, kf: &[KnownFinding], prop: &str) -> Stats {
     let which = plan.which;
     par_explore(plan.universes.len(), |ui, st| {
         let u = &plan.universes[ui];
-        let sentences = all_strings(&u.alphabet, plan.max_len);
+        let mut sentences = all_strings(&u.alphabet, if u.extra_sentences.is_empty() { plan.max_len } else { plan.max_len.min(3) });
+        sentences.extend(u.extra_sentences.iter().cloned());
         for &opts in &u.opts {
             let (dict, rd) = match u.build() {
                 Ok(x) => x,
@@ -354,6 +355,22 @@ fn explore(plan: &Plan, kf: &[KnownFinding], prop: &str) -> Stats {
                 }
                 if s.chars().any(|c| c.len_utf8() == 2 || c.len_utf8() == 3) {
                     st.count("sentences_with_multibyte_char");
+                }
+                if s.chars().count() > 32 {
+                    st.count("sentences_longer_than_32_chars");
+                }
+                if run.nodes.len() > 0 {
+                    let mut per_end = std::collections::HashMap::new();
+                    for n in &run.nodes {
+                        *per_end.entry(n.end).or_insert(0usize) += 1;
+                    }
+                    let mx = per_end.values().copied().max().unwrap_or(0);
+                    if mx > 16 {
+                        st.count("sentences_with_more_than_16_nodes_at_a_boundary");
+                    }
+                    if mx > 256 {
+                        st.count("sentences_with_more_than_256_nodes_at_a_boundary");
+                    }
                 }
                 if st.states % 200_003 == 1 {
                     st.sample(json!({"universe": u.name, "opts": format!("{opts:?}"), "sentence": s, "tokens": run.tokens.iter().map(|t| t.to_json()).collect::<Vec<_>>() }));
@@ -515,6 +532,7 @@ pub fn run(which: Which, tier: Tier) -> i32 {
             universes.extend(u_lex(tier));
             universes.extend(u_nul(tier));
             universes.extend(u_k1(tier));
+            universes.extend(u_big(tier));
             max_len = tier.pick(4, 6);
         }
         Which::C02 => {
@@ -523,6 +541,7 @@ pub fn run(which: Which, tier: Tier) -> i32 {
             // a slice of the unknown-word universe: group/length interplay produces many paths
             uu.retain(|u| u.name.contains("mult2") && u.name.contains("a+ab"));
             universes.extend(uu);
+            universes.extend(u_big(tier));
             max_len = tier.pick(5, 6);
         }
         Which::C03 => {
@@ -532,6 +551,7 @@ pub fn run(which: Which, tier: Tier) -> i32 {
             let mut ul = u_lex(tier);
             ul.retain(|u| u.name.contains("matrix3x3s1"));
             universes.extend(ul);
+            universes.extend(u_big(tier));
             max_len = tier.pick(4, 6);
         }
     }
@@ -582,8 +602,12 @@ pub fn run(which: Which, tier: Tier) -> i32 {
             "gaps_inner",
             "gaps_trailing",
             "rule_fallback_single_char",
+            "sentences_longer_than_32_chars",
+            "sentences_with_more_than_256_nodes_at_a_boundary",
         ],
         Which::C02 => vec![
+            "sentences_with_more_than_16_nodes_at_a_boundary",
+            "sentences_longer_than_32_chars",
             "c02_sentences_with_2+_paths",
             "c02_sentences_with_exact_ties",
             "c02_sentences_where_eos_connection_changes_argmin",
@@ -600,6 +624,8 @@ pub fn run(which: Which, tier: Tier) -> i32 {
             "rule_trailing_gap",
             "sentences_with_lexicon_homographs",
             "char_table_probes",
+            "sentences_longer_than_32_chars",
+            "sentences_with_more_than_256_nodes_at_a_boundary",
         ],
     };
     rep.finish(st, &required)
